@@ -109,6 +109,7 @@ class Explorer:
         self.maybe = False
         self.stack = []
         self.side = []      # side constraints registered by scalar layers (root symbols)
+        self.rewrites = []  # (term, replacement) pairs from proved lemmas (cut rule), applied to every query
         self.notes = []
         self.truncated = False
 
@@ -119,8 +120,13 @@ class Explorer:
         return '%s!%d' % (base, n)
 
     # -- feasibility -------------------------------------------------------
+    def _rw(self, cs):
+        if not self.rewrites:
+            return cs
+        return [z3.substitute(c, *self.rewrites) for c in cs]
+
     def _feasible(self, extra):
-        cs = self.pc + [extra]
+        cs = self._rw(self.pc + [extra])
         conj = z3.And(*cs) if len(cs) > 1 else cs[0]
         for m in self.models:
             try:
@@ -190,7 +196,7 @@ class Explorer:
     # -- final queries -----------------------------------------------------
     def check(self, extra, timeout_ms=None, logic='same'):
         """Is pc ∧ side ∧ extra satisfiable?  Returns (status, model)."""
-        cs = list(self.pc) + list(self.side) + [_as_z3(e) for e in extra]
+        cs = self._rw(list(self.pc) + list(self.side) + [_as_z3(e) for e in extra])
         self.stats.final_queries += 1
         r, m = solve(cs, self.logic if logic == 'same' else logic,
                      timeout_ms or self.qtimeout_ms, self.stats)
@@ -215,6 +221,7 @@ class Explorer:
             self.prefix = self.stack.pop()
             self.pc = []
             self.side = []
+            self.rewrites = []
             self.pos = 0
             self.decisions = []
             self.counter = {}
